@@ -229,6 +229,9 @@ func (tr *Tracer) effectOf(ev *Event, cc *ssa.CallCommon) effect {
 	}
 	if ev.Callee != nil {
 		if ev.Callee.Pkg != nil && tr.c.inModule(ev.Callee.Pkg.Pkg) {
+			if tr.c.pureModuleFn(ev.Callee) {
+				return effNone // getter / pure computation
+			}
 			return effHavoc // module function not inlined (recursion / depth / policy)
 		}
 		if ev.Callee.Pkg == nil {
